@@ -136,7 +136,7 @@ def run(prop, seed, tier):
                 lib.import_generated(out, base)
             except Exception as ex:
                 fail('import', text, 'accepted, but the generated module does not import: %r' % ex)
-            if tier != 'quick' or base in ('v0', 'v1', 'v3', 'v7', 'v8', 'fam'):
+            if True:        # every accepted file is compiled in both tiers (a quick tier that skipped files missed fb11fe2)
                 for e in compile_cpp(sc, out, base) if os.path.exists(os.path.join(out, base + '.ppf.cpp')) else []:
                     fail('cpp-compile', text, 'accepted, but generated C++ does not compile: %s' % e)
     return {'cases': cases, 'distinct': cases, 'failures': failures, 'domain': DOMAIN,
